@@ -272,7 +272,14 @@ static Plan gen_cloudkey(uint64_t seed, const Op &opts) {
     // same keys, 2 LWE key + ring key, 3 secret key set of another key); the cloud key file is closed last
     // pre: secret material is exported BEFORE the cloud key in the same process/thread (the tutorial's order: secret.key, then cloud.key):
     //      0 nothing, 1 secret key set of the same keys, 2 LWE key + ring key, 3 secret key set of another key
-    Op o; o.kind = "op"; o.set("k", "export").seti("transport", (int) r.below(2)).seti("overlap", r.bern(0.5) ? 1 + (int) r.below(3) : 0).seti("pre", r.bern(0.6) ? 1 + (int) r.below(3) : 0); p.ops.push_back(o);
+    // overlap 4..6: the same three kinds of secret material are exported by ANOTHER THREAD while this one exports the cloud key
+    //      (two simulated tasks under the seeded scheduler, every write call reaching a store is a scheduling point)
+    Op o; o.kind = "op"; o.set("k", "export").seti("transport", (int) r.below(2)).seti("overlap", r.bern(0.6) ? 1 + (int) r.below(6) : 0).seti("pre", r.bern(0.6) ? 1 + (int) r.below(3) : 0); p.ops.push_back(o);
+    if (o.geti("overlap") >= 4) {
+        sched_to_plan(p, r, 2);
+        p.cfg.setu("sched_sites", p.cfg.getu("sched_sites") | (1u << Y_APP));
+        if (r.bern(0.5)) p.cfg.setd("sched_p", 1.0);
+    }
     return p;
 }
 
@@ -304,8 +311,26 @@ static void exec_cloudkey(const Plan &p, RunResult &r) {
         r.faults.add("history-secret-exported-first");
         r.probes.add(fmt("pre_%d", pre));
     }
+    SchedResult sr; bool conc = overlap >= 4;
     if (!overlap) export_via(ck, wc, &C);   // write recorder: every byte of every write call
-    else {
+    else if (conc) {
+        // history: another thread exports secret material (own stream, own objects) while this one exports the cloud key
+        WriteLog other, other2; WireCfg wc2 = draw_wire(wr, tr);
+        if (sp.n > 100) { wc2.wmode = 0; wc2.wbuf = 1 << 12; wc.wbuf = 1 << 12; }
+        int om = overlap - 3;
+        KeyCtx *k2 = om == 3 ? get_key(sp, p.cfg.getu("kseed") ^ 0x77) : kc;
+        Obj o1; o1.kind = om == 2 ? K_LWEKEY : K_SECRETKEY; o1.p = om == 2 ? (void *) k2->sk->lwe_key : (void *) k2->sk; o1.owned = false;
+        Obj o2; o2.kind = K_TGSWKEY; o2.p = (void *) k2->sk->tgsw_key; o2.owned = false;
+        std::vector<std::function<void()>> tasks;
+        tasks.push_back([&]() { export_via(ck, wc, &C); });
+        tasks.push_back([&]() { export_via(o1, wc2, &other); if (om == 2) export_via(o2, wc2, &other2); });
+        sr = sched_run(sched_from_plan(p), tasks);
+        r.steps = sr.steps; r.switches = sr.switches; r.sched_hash = sr.sched_hash;
+        for (auto &kv : sr.site_hits) r.probes.add("yield_" + kv.first, kv.second);
+        r.faults.add("history-concurrent-secret-export");
+        r.probes.add(fmt("concurrent_%d", om));
+        if (sr.switches) r.probes.add("exports_interleaved");
+    } else {
         // history: two writers open at the same time (a client writing both key files, closing them at the end)
         WriteLog other; WireCfg wc2 = draw_wire(wr, tr);
         if (sp.n > 100) { wc2.wmode = 0; wc2.wbuf = 1 << 16; }
@@ -427,8 +452,9 @@ static void exec_cloudkey(const Plan &p, RunResult &r) {
             obj_free(imp);
         }
     }
-    Hash ch; ch.str(p.cfg.gets("spec")); ch.u64(p.cfg.getu("kseed")); ch.u64((uint64_t) tr); ch.u64(p.cfg.getu("wseed"));
-    r.case_hash = ch.get(); r.nontrivial = true; r.steps = 1;
+    if (conc && r.v.set && !p.explicit_sched) { Plan q = p; q.explicit_sched = true; q.sw = sr.trace; r.explicit_plan = q.str(); }
+    Hash ch; ch.str(p.cfg.gets("spec")); ch.u64(p.cfg.getu("kseed")); ch.u64((uint64_t) tr); ch.u64(p.cfg.getu("wseed")); ch.u64(r.sched_hash);
+    r.case_hash = ch.get(); r.nontrivial = true; if (!conc) r.steps = 1;
     r.sample = fmt("spec=%s transport=%s writes=%zu bytes=%zu patterns=%llu", sp.str().c_str(), tr ? "stream" : "FILE", C.calls.size(), C.bytes.size(), (unsigned long long) searched);
 }
 const Scenario SC_CK = {"cloudkey", gen_cloudkey, exec_cloudkey};
